@@ -15,7 +15,7 @@ package gateway
 
 // the first backendRef of the rule that is the Service `serviceName` (a copy of it), or nil when there is none
 //@ func getServiceBackendRef
-//@ props C13
+//@ props C13 C03
 //@ ensures found: result1 != nil ==> 0 <= result0 && result0 < len(rule.BackendRefs) && isSvc(rule.BackendRefs[result0], serviceName) && sameBackend(result1, rule.BackendRefs[result0]) && fresh(result1)
 //@ ensures found_exists: result1 != nil ==> (exists k :: 0 <= k && k < len(rule.BackendRefs) && isSvc(rule.BackendRefs[k], serviceName))
 //@ ensures first: result1 != nil ==> (forall k :: 0 <= k && k < result0 ==> !isSvc(rule.BackendRefs[k], serviceName))
@@ -32,8 +32,10 @@ package gateway
 // setServiceBackendRef replaces the first backendRef of the same Service by ref, or appends ref; every other backendRef
 // keeps its position and content; the elements of the slice the rule held before are not written (the rule may be a
 // shallow copy of a rule of the HTTPRoute that was just read).
+// (also C03: EnsureRoutes decides "nothing to do" by comparing the desired rules with the ones just read; a helper that
+// writes through to the read object makes every later weight step look already applied)
 //@ func setServiceBackendRef
-//@ props C13
+//@ props C13 C03
 //@ requires rule != nil
 //@ ensures not_a_service: !old(refIsSvc(ref)) ==> rule.BackendRefs == old(rule.BackendRefs)
 //@ ensures appended: old(refIsSvc(ref)) && !old(hasSvc(rule, ref.Name)) ==> len(rule.BackendRefs) == old(len(rule.BackendRefs)) + 1 && sameBackend(rule.BackendRefs[old(len(rule.BackendRefs))], ref) && (forall k :: 0 <= k && k < old(len(rule.BackendRefs)) ==> sameBackend(rule.BackendRefs[k], old(rule.BackendRefs)[k]))
